@@ -20,14 +20,19 @@ RULE = ("meshes over all topology families of C01 (grids, closed surfaces, non-m
         "under ASan+UBSan); file bytes (OBJ: index triples verbatim, number tokens as parsed float32 bit patterns) and the "
         "decoded geometry must equal the Lean model's; the property is evaluated on the implementation's own result. "
         "Readers alone on hand-written files (CRLF, comments, polygons, relative indices, alias type names, extra "
-        "properties, trailing bytes). draco_encoder/draco_decoder run on temporary files with quantization disabled. "
+        "properties, trailing bytes). The number text alone: printed characters for bit patterns over the whole float32 range "
+        "(denormals, binade and 10^k boundaries, buffer limit, FLT_MAX, inf, nan) and parser::ParseFloat on arbitrary tokens "
+        "(decimals, exponents incl. int32 wrap, long digit strings, inf/nan spellings, malformed). draco_encoder/draco_decoder run on temporary files with quantization disabled. "
         "non-trivial = distinct op line")
 THEOREM_BACKED = ("stl_roundtrip (full), ply_roundtrip (full on float32/int32 positions, float32 normals, uint8 colours), "
                   "obj_roundtrip / obj_connectivity_roundtrip / obj_seams_exact / obj_precision (meshes with >= 1 face) and "
-                  "obj_pointcloud_roundtrip (point clouds, face-less meshes), all relative to the number codec")
-CORRESPONDENCE_ONLY = ("the 6-decimal bound of the C++ text codec (snprintf %F / parser::ParseFloat: double arithmetic) is "
-                       "checked in exact rationals per value, not proved; the command line tools are exercised end to end "
-                       "only (no model of the tools)")
+                  "obj_pointcloud_roundtrip (point clouds, face-less meshes), all relative to the number codec; the number codec "
+                  "itself: obj_dec6_exact, obj_print_exact (exact arithmetic), obj_text_precision(_ieee) (any rounding "
+                  "oracle), obj_text_nonfinite_unreadable")
+CORRESPONDENCE_ONLY = ("that g++ / x86-64 binary64 arithmetic and the binary64 -> binary32 conversion satisfy the rounding "
+                       "model of obj_text_precision is assumed and sampled (executable Float instance of the same parser model "
+                       "= real parser::ParseFloat bit for bit; the bound is evaluated in exact rationals per value); the "
+                       "command line tools are exercised end to end only (no model of the tools)")
 EXPLANATION = ("OBJ point clouds / face-less meshes: ObjEncoder used to write value tables that ObjDecoder pairs by position "
                "(repaired in /repo 55a4a4d; obj_pointcloud_pairing_violation / obj_pointcloud_unreadable are kept as "
                "statements about the old writer, their inputs are the first cases of every run); the current writer is "
@@ -658,6 +663,11 @@ def case_from_line(line, flavour="plain", tags=()):
         c = Case(line, expect=expect_dec, flavour=flavour, tags=tags)
     elif op == "obj_nums":
         c = Case(line, oracle=nums_oracle([int(x) for x in tok[1].split(",")]), flavour=flavour, tags=tags)
+    elif op == "obj_print":
+        c = Case(line, oracle=print_oracle([int(x) for x in tok[1].split(",")]), flavour=flavour, tags=tags)
+    elif op == "obj_parse":
+        toks = [bytes.fromhex(h).decode("latin1") if h != "-" else "" for h in tok[1].split(",")]
+        c = Case(line, oracle=parse_oracle(toks), flavour=flavour, tags=tags)
     elif op == "tool_rt":
         kv = dict(t.split("=", 1) for t in tok[1:tok.index("--")] if "=" in t)
         c = Case(line, model=False, oracle=tool_oracle(kv.get("in", "ply"), kv.get("out", "ply"), kv.get("pc") == "1"),
@@ -816,11 +826,105 @@ def special_bits(rng):
     elif r < 0.9:       # binades where a float32 step is close to 1e-6
         v = rng.uniform(4, 32) * rng.choice([1, -1])
     else:
-        v = rng.choice([0.0, -0.0, 1e-6, 5e-7, 4.9999e-7, 1e-7, 1e6, -1e6, 999999.9375, 16777216.0, 1.17549435e-38, 1e-45])
+        v = rng.choice([0.0, -0.0, 1e-6, 5e-7, 4.9999e-7, 5.0000001e-7, 1e-7, 9.9999995, 9.9999995e-7, 1e6, -1e6,
+                        999999.9375, 16777216.0, 1.17549435e-38, 1e-45, 0.1, 0.3, 2.5e-6, 1.5e-6, 68719476736.0 * 0.999])
     b = G.f32_bits(G.f32(v))
     if rng.random() < 0.3:
         b = max(0, min(0xff7fffff if b >> 31 else 0x7f7fffff, b + rng.choice([-1, 1])))
     return b
+
+
+def wide_bits(rng):
+    """bit patterns over the whole float32 range: denormals, huge magnitudes (39-digit `%f` texts cut by the 20-byte
+    buffer), every binade boundary, non-finite values"""
+    r = rng.random()
+    if r < 0.25:
+        b = rng.getrandbits(32)
+    elif r < 0.45:      # denormals and the smallest normals
+        b = rng.choice([0, 1, 2, 0x7fffff, 0x800000, 0x800001]) + rng.choice([0, 0, rng.getrandbits(20)])
+        b |= rng.getrandbits(1) << 31
+    elif r < 0.7:       # binade boundaries and 10^k up to 3.4e38
+        if rng.random() < 0.5:
+            b = (rng.randint(1, 254) << 23) + rng.choice([0, 1, 0x7fffff, 0x400000])
+        else:
+            b = G.f32_bits(G.f32(10.0 ** rng.randint(-45, 38))) + rng.choice([-1, 0, 1])
+        b = max(0, b) | (rng.getrandbits(1) << 31)
+    elif r < 0.9:       # around the limits of the 20-byte buffer: 1e10 .. 1e20
+        b = G.f32_bits(G.f32(10.0 ** rng.uniform(10, 20))) | (rng.getrandbits(1) << 31)
+    else:
+        b = rng.choice([0x7f7fffff, 0xff7fffff, 0x7f800000, 0xff800000, 0x7fc00000, 0xffc00000, 0x7f800001, 0x80000000,
+                        0x00000000, 0x7fffffff])
+    return b & 0xffffffff
+
+
+def print_oracle(bits):
+    """the text ObjEncoder prints is the exactly rounded 6-decimal expansion, cut after 19 characters"""
+    def f(hout, case):
+        got = hout.split(",")
+        if len(got) != len(bits):
+            return ("obj-print", f"`{case.op[:200]}`: {len(bits)} numbers written, {len(got)} tokens found")
+        for b, h in zip(bits, got):
+            if not finite(b):
+                continue
+            want = ("%.6f" % G.bits_f32(b))[:19]
+            text = bytes.fromhex(h).decode("latin1") if h != "-" else ""
+            if text != want:
+                return ("obj-print-not-exact", f"ObjEncoder prints float32 bits {b} ({G.bits_f32(b)!r}) as `{text}`, the "
+                                               f"exactly rounded 6-decimal text (19 characters) is `{want}`")
+        return None
+    return f
+
+
+PLAIN_DECIMAL = re.compile(r"^[+-]?\d{1,15}\.\d{0,17}$")
+
+
+def parse_oracle(tokens):
+    """reader half of the precision claim on the implementation: a plain decimal is read to within the binary64
+    accumulation + binary32 conversion slack of its exact value"""
+    def f(hout, case):
+        got = hout.split(",")
+        if len(got) != len(tokens):
+            return ("obj-parse", f"`{case.op[:200]}`: {len(tokens)} tokens, {len(got)} results")
+        for t, r in zip(tokens, got):
+            if not PLAIN_DECIMAL.match(t):
+                continue
+            exact = Fraction(t)
+            if r == "?":
+                return ("obj-parse-rejects-decimal", f"parser::ParseFloat rejects the plain decimal `{t}`")
+            b, n = r.split(":")
+            if int(n) != len(t) or not finite(int(b)):
+                return ("obj-parse-decimal", f"parser::ParseFloat on `{t}`: bits {b}, {n} of {len(t)} characters read")
+            if abs(exact) < Fraction(1, 2 ** 126):
+                continue
+            if abs(Fraction(G.bits_f32(int(b))) - exact) > abs(exact) * (Fraction(1, 2 ** 24) + Fraction(1, 2 ** 46)):
+                return ("obj-parse-precision", f"parser::ParseFloat reads `{t}` as {G.bits_f32(int(b))!r}: more than "
+                                               f"2^-24 + 2^-46 relative error")
+        return None
+    return f
+
+
+def rand_token(rng):
+    r = rng.random()
+    x = G.bits_f32(special_bits(rng))
+    if r < 0.3:
+        return "%.6f" % x
+    if r < 0.4:
+        return ("%." + str(rng.randint(0, 17)) + "f") % x
+    if r < 0.5:
+        return rng.choice(["%.9g", "%e", "%.3E", "%g", "%.17g"]) % x
+    if r < 0.6:
+        return rng.choice(["+", ""]) + str(rng.randint(0, 10 ** rng.randint(1, 15))) + rng.choice(["", ".", ".0", ".5"])
+    if r < 0.7:     # long digit strings
+        return "".join(rng.choice("0123456789") for _ in range(rng.randint(16, 45))) + \
+            rng.choice(["", "." + "".join(rng.choice("0123456789") for _ in range(rng.randint(1, 30)))])
+    if r < 0.8:
+        return rng.choice(["%de%d", "%dE%d", "%d.5e%d", "-%de%d"]) % (rng.randint(0, 99), rng.choice(
+            [0, 1, -1, 5, -5, 38, 39, -38, -45, -46, 300, 308, 309, -320, -400, 400, 2147483647, 2147483648, 4294967295,
+             4294967296, -2147483648]))
+    return rng.choice(["inf", "Inf", "-inf", "+Inf", "nan", "NaN", "-nan", "-NaN", "INF", "NAN", "-INF", "infinity", "in",
+                       "1e", "1e+", "e5", "-", "+", "", ".", "-.", ".5", "-.5", "5.", "1.2.3", "12abc", "0x10", "1,5", "--1",
+                       "+-1", "1e5.5", "0e999", "-0e999", "0.0e-999", "1e-999", "-0", "-0.0", "+0.000000", "00012.5000",
+                       "1.e3", "1.5f", "1_000"])
 
 
 def generate(rng, tier):
@@ -902,6 +1006,17 @@ def generate(rng, tier):
         if i % 10 == 0:     # correspondence beyond the property's range: huge values (19-character truncation), inf, nan
             bits += [G.f32_bits(G.f32(x)) for x in (1e12, -1e12, 3.4e38, 1e30)] + [0x7f800000, 0xff800000, 0x7fc00000]
         cases.append(case_from_line("obj_nums " + ",".join(map(str, bits)), "plain", ("obj_nums",)))
+    # ---- 4b. the two halves of the number codec separately: the printed text (exact 6-decimal rounding, 20-byte
+    #          buffer) over the whole float32 range, and parser::ParseFloat on arbitrary tokens
+    for i in range(160 if thorough else 40):
+        bits = [wide_bits(rng) if rng.random() < 0.5 else special_bits(rng) for _ in range(200)]
+        cases.append(case_from_line("obj_print " + ",".join(map(str, bits)), "asan" if i % 4 == 0 else "plain", ("obj_print",)))
+        if i % 2 == 0:
+            cases.append(case_from_line("obj_nums " + ",".join(map(str, bits)), "plain", ("obj_nums", "wide")))
+    for i in range(160 if thorough else 40):
+        toks = [rand_token(rng) for _ in range(150)]
+        cases.append(case_from_line("obj_parse " + ",".join((t.encode("latin1").hex() or "-") for t in toks),
+                                    "asan" if i % 4 == 0 else "plain", ("obj_parse",)))
     # ---- 5. the command line tools on temporary files, quantization disabled
     for i in range(1200 if thorough else 240):
         fin = rng.choice(["ply", "obj", "stl", "ply", "obj"])
